@@ -68,10 +68,17 @@ def cmd_check(a):
     for wname, share, chunk in worlds:
         tot = runner.search(wname, seed, tier, budget * share, workers, chunk, props=None)
         totals.append(tot)
-        if tot.get("harness"):
-            print("HARNESS-ERROR world=%s %s" % (wname, tot["harness"]))
-            evidence.write(prop, tier, seed, totals, [], [], time.time() - t0, harness=tot["harness"])
-            return 2
+    harness = [(t["world"], t["harness"], t.get("harness_count", 0)) for t in totals if t.get("harness")]
+    has_viol = any(v["property"] == prop for t in totals for v, _ in t.get("violations", []))
+    if harness and not has_viol:
+        # runs that crashed inside the simulator and no violation anywhere: nothing can be concluded
+        for wname, h, n in harness:
+            print("HARNESS-ERROR world=%s (%d runs) %s" % (wname, n, h))
+        evidence.write(prop, tier, seed, totals, [], [], time.time() - t0, harness=harness[0][1])
+        return 2
+    for wname, h, n in harness:
+        # a violation was found as well: report it (it is a fact about the tree), and say that some runs crashed
+        print("NOTE harness exception in world=%s (%d runs): %s" % (wname, n, str(h).strip().splitlines()[-1][:200]))
 
     known = findings.load()
     new_violations = []
